@@ -99,17 +99,20 @@ def rvbStep (nv edges gamma h state slots subvars start toggles accepted log ast
   let ks := asg.map List.length
   let k : Nat := ks.foldl (fun (x y : Nat) => x + y) 0
   let p := rawMult P ks
+  -- the code's value (early exit emulated); without early exit it must be the segment product
+  let (pCode, broke) := rvbCodeMult E b R
+  let codeOk := broke || decide (pCode = p)
   -- acceptance decision against p and the accept draw
   let len := words.length
   let (accOk, margin) : Bool × Rat :=
-    if 1 ≤ p then (acc, 1)
+    if 1 ≤ pCode then (acc, 1)
     else
       let idx : Int := (len : Int) - 1 - (if acc then (k : Int) else 0)
       if idx < 2 then (false, 1)
       else
         let w := words.getD idx.toNat 0
-        let thr : Int := (p * (RS.two64 : Rat)).floor
-        let d := (w : Rat) / (RS.two64 : Rat) - p
+        let thr : Int := (pCode * (RS.two64 : Rat)).floor
+        let d := (w : Rat) / (RS.two64 : Rat) - pCode
         (decide ((w : Int) < thr) == acc, if d < 0 then -d else d)
   -- starting cell, cluster size, number of growth draws
   let cps := (List.range E.nvars).map (constPs b.slots)
@@ -125,7 +128,7 @@ def rvbStep (nv edges gamma h state slots subvars start toggles accepted log ast
     else getB R.mask0 (idle.getD (choice - flat.length) 0)
   let (ones, rs2) := contiguousBits rs
   let cells := cellCount E.nvars b.slots R
-  let growth : Int := (len : Int) - (rs2.draws : Int) - (if 1 ≤ p then 0 else 1) - (if acc then (k : Int) else 0)
+  let growth : Int := (len : Int) - (rs2.draws : Int) - (if 1 ≤ pCode then 0 else 1) - (if acc then (k : Int) else 0)
   let growOk := decide (cells ≤ ones + 1) && decide ((cells : Int) ≤ growth) && decide (growth ≤ 2 * (cells : Int)) &&
     decide (1 ≤ cells)
   -- move relation / nothing changed
@@ -138,9 +141,9 @@ def rvbStep (nv edges gamma h state slots subvars start toggles accepted log ast
       okB && okA && decide (P2 = P.flip) && decide (asg.map List.length = asg2.map List.length) &&
         admissibleB P asg && admissibleB P2 asg2 &&
         decide (weight P asg * transProb P asg asg2 = weight P2 asg2 * transProb P2 asg2 asg)
-    else decide (a = b) && okB
+    else decide (a = b) && (okB || broke)
   let verdict := if margin < 1 / 1000000000 then "?" else "ok"
-  s!"{showApprox p} {k} {showBool accOk} {showBool (startOk && growOk)} {moveTok} {p2Tok} {showBool dbOk} {verdict}"
+  s!"{showApprox pCode} {k} {showBool accOk} {showBool (startOk && growOk)} {moveTok} {p2Tok} {showBool (dbOk && codeOk)} {verdict}"
 
 def step (toks : List String) : String :=
   match toks with
